@@ -124,6 +124,23 @@ def char_cases(code):
     return out
 
 
+def undefined_cases(code):
+    """characters that SOME braille code or the English speech tables define but this code does not: they are passed through by design, so
+    the only claim is the statement's last one - the result is not empty"""
+    from props import c05
+    univ = set()
+    for other in CELL + TEXT:
+        univ |= defined(other)
+    univ |= {c for _, c in c05.table_chars("en") if len(c) == 1}
+    mine = defined(code)
+    out = []
+    for c in sorted(univ - mine):
+        if c.isspace() or not c.isprintable() or 0x2061 <= ord(c) <= 0x2064:
+            continue
+        out.append(("undefined-char:alone", terms.T("mo" if not c.isalnum() else "mi", text=c), c))
+    return out
+
+
 def work_chars(item):
     code, cases = item
     mc = mcx.worker_mc()
@@ -390,7 +407,7 @@ def main(tier):
     jobs = []
     nchar = 0
     for code in CELL + TEXT:
-        cc = char_cases(code)
+        cc = char_cases(code) + undefined_cases(code)
         nchar += len(cc)
         for i in range(0, len(cc), 700):
             jobs.append(("C", code, cc[i:i + 700]))
@@ -424,7 +441,8 @@ def main(tier):
             run.nontriv(h)
     return run.finish(
         rule="(A) every key (every member of every range) of Braille/<code>/unicode.yaml and unicode-full.yaml in <mi>/<mo>/<mtext>/alone contexts and "
-             "14 mathvariant values x 8 token classes, for Nemeth, UEB, CMU, Vietnam, LaTeX, ASCIIMath; (B) spine terms of G (quick: depth 1 + depth 2 over a "
+             "14 mathvariant values x 8 token classes, for Nemeth, UEB, CMU, Vietnam, LaTeX, ASCIIMath, plus every character another code or the English speech tables "
+             "define but this code does not, alone (claim: not empty); (B) spine terms of G (quick: depth 1 + depth 2 over a "
              "12-construct core; thorough: depth 2) and the trigger terms with author ids on every element x 4 highlight styles x node id in "
              "{'', unknown, root, each of the first 14 author ids}, then node-from-braille at 0 and 500 and the requests repeated; "
              "(C) code walks in ONE session: every ordered pair A>B, every A>B>A and 12 rotations through all six codes, three expressions of "
